@@ -70,3 +70,6 @@ def check(ctx):
     E.write_flow(ctx, E.MAKE_SYN, {'function', 'shell'})
     E.write_flow(ctx, E.NINJA_SYN, {'shell'})
     clean_paths(ctx)
+    # depfile post-processing keeps escaped characters of dependency names
+    from . import c07
+    c07.depfix_table(ctx)
